@@ -132,11 +132,13 @@ theorem uint_redc_zero_bits (inv : ℕ) (a b md : List ℕ) :
     uintMulRedc keepMul 0 inv a b md = some [] ∧ uintSquareRedc keepSq 0 inv a md = some [] := by
   simp [uintMulRedc, uintSquareRedc]
 
-/-- the extra-carry thresholds of the current source are sound (generated facts, re-proved each run):
-    the carry is dropped only below `2^63 − 1` resp. `2^62 − 1`-style bounds. -/
+/-- the extra-carry thresholds of the current source are sound (generated facts, re-proved each run): `mul_redc`
+    drops the carry only when `2·Mod ≤ 2^(64N)` (its accumulator is `< 2·Mod`), `square_redc` takes the narrow arm
+    only when `3·Mod ≤ 2^(64N)` (its accumulator is `< 3·Mod`). These are the weakest conditions the two loops
+    need, so a threshold edit that keeps the code correct keeps the obligation. -/
 theorem thresholds_sound :
     (∀ top, keepMul top = false → 2 * (top + 1) ≤ 2 ^ 64)
-    ∧ (∀ top, keepSq top = false → 4 * (top + 1) ≤ 2 ^ 64) :=
+    ∧ (∀ top, keepSq top = false → 3 * (top + 1) ≤ 2 ^ 64) :=
   ⟨Ruint.Gen.RedcFacts.keepMul_sound, Ruint.Gen.RedcFacts.keepSq_sound⟩
 
 /-- **Tie to the source text**: on word inputs the model's word primitives (generic base, at `B = W`) are equal to
